@@ -130,7 +130,8 @@ func TestVerifC11View(t *testing.T) {
 				d.WriteCount(b, begin, end, counts)
 				// The approved build is always present too, so that a report is produced.
 				if bname != "approved" {
-					d.WriteCount(zzvC11OK, begin, end, map[string]uint64{"c": 1})
+					// (with stacks whose approval differs between the two programs of a configuration)
+					d.WriteCount(zzvC11OK, begin, end, map[string]uint64{"c": 1, "s\nmain.f:+1,+0x1": 2, "t\nmain.f:+1,+0x1": 3, "e": 4})
 				}
 				ufix.Install(ucfg, "v1.2.3", x)
 				cfg := config.NewConfig(ucfg)
